@@ -100,6 +100,7 @@ where
         },
         GenKind::Full { len, v } => <C as Vec1<T>>::full(*len, T::from_inner(<T::Inner>::nfv(v))),
         GenKind::Empty => <C as Vec1<T>>::empty(),
+        GenKind::OptCollect { .. } => panic!("{} optional collect is handled separately", HARNESS),
     };
     c.seq()
 }
@@ -126,7 +127,7 @@ fn run_gen(g: &Gen, out: Container) -> Result<Vec<Obs>, String> {
             GenTy::Usize => by_container!(usize),
             GenTy::OptF64 => by_container!(Option<f64>),
             GenTy::OptI32 => by_container!(Option<i32>),
-            GenTy::Trk => return Err(format!("{HARNESS} tracked generators are handled separately")),
+            GenTy::Trk | GenTy::Str => return Err(format!("{HARNESS} handled separately")),
         })
     })
     .and_then(|r| r)
@@ -161,6 +162,7 @@ fn polars_gen(g: &Gen) -> Result<Vec<Obs>, String> {
             },
             GenKind::Full { len, v } => <C as Vec1<T>>::full(*len, T::from_inner(<T::Inner>::nfv(v))),
             GenKind::Empty => <C as Vec1<T>>::empty(),
+            GenKind::OptCollect { .. } => panic!("{} optional collect is handled separately", HARNESS),
         }
     }
     match g.ty {
@@ -276,6 +278,7 @@ fn gen_oracle(g: &Gen, items: &[Obs]) -> Result<(), String> {
                 return Err(format!("empty() holds {} elements", items.len()));
             }
         },
+        GenKind::OptCollect { .. } => {},
     }
     Ok(())
 }
@@ -286,6 +289,7 @@ fn gen_name(g: &Gen) -> &'static str {
         GenKind::Linspace { .. } => "linspace",
         GenKind::Full { .. } => "full",
         GenKind::Empty => "empty",
+        GenKind::OptCollect { .. } => "collect_vec1_opt",
     }
 }
 
@@ -385,7 +389,92 @@ fn check_gen_tracked(g: &Gen) -> (Vec<Violation>, RunStats) {
     (viol, st)
 }
 
+/// K3 for element types beyond f64: `collect_vec1_opt` must store, for every `None`, a value the
+/// element type itself regards as its null (`IsNone::is_none`), and the item otherwise.
+fn check_opt_collect(g: &Gen, mask: &[bool]) -> (Vec<Violation>, RunStats) {
+    let mut st = RunStats::default();
+    let mut viol = vec![];
+    st.executions += 1;
+    fn run<T, C>(items: Vec<Option<T>>, get: impl Fn(&C) -> Vec<T>) -> Vec<T>
+    where
+        T: IsNone,
+        C: Vec1<T>,
+    {
+        let c: C = items.into_iter().collect_vec1_opt();
+        get(&c)
+    }
+    fn go<T: IsNone + Obsable + PartialEq + std::fmt::Debug>(
+        out: Container,
+        mask: &[bool],
+        mk: impl Fn(usize) -> T,
+    ) -> Result<Vec<String>, String> {
+        let items: Vec<Option<T>> = mask.iter().enumerate().map(|(i, m)| if *m { None } else { Some(mk(i)) }).collect();
+        let got: Vec<T> = match out {
+            Container::Vec => run::<T, Vec<T>>(items, |c| c.clone()),
+            Container::Deque => run::<T, VecDeque<T>>(items, |c| c.iter().cloned().collect()),
+            Container::Array1 => run::<T, Array1<T>>(items, |c| c.iter().cloned().collect()),
+            Container::Sim => run::<T, SimVec<T>>(items, |c| c.items.clone()),
+            Container::Plain => run::<T, PlainVec<T>>(items, |c| c.items.clone()),
+            Container::Polars => return Err(format!("{HARNESS} polars columns hold options")),
+        };
+        let mut bad = vec![];
+        if got.len() != mask.len() {
+            bad.push(format!("{} items collected from a stream of {}", got.len(), mask.len()));
+            return Ok(bad);
+        }
+        for (i, (v, m)) in got.iter().zip(mask).enumerate() {
+            if *m {
+                if !v.is_none() {
+                    bad.push(format!("position {i}: None was stored as {v:?}, which the element type does not regard as its null"));
+                }
+            } else if *v != mk(i) {
+                bad.push(format!("position {i}: Some({:?}) was stored as {v:?}", mk(i)));
+            }
+        }
+        Ok(bad)
+    }
+    let out = g.out;
+    let ty = g.ty;
+    let mask2 = mask.to_vec();
+    let r = guarded(move || match ty {
+        GenTy::Str => go::<String>(out, &mask2, |i| format!("v{i}")),
+        GenTy::F32 => go::<f32>(out, &mask2, |i| i as f32 + 0.5),
+        GenTy::F64 => go::<f64>(out, &mask2, |i| i as f64 - 1.5),
+        _ => Err(format!("{HARNESS} optional collect scenario supports string, f32, f64")),
+    });
+    let _ = sim_log_take();
+    let stage = format!("collect_vec1_opt<{}:{}>", g.out.name(), g.ty.name());
+    match r {
+        Err(msg) => viol.push(Violation {
+            props: vec!["C19"],
+            oracle: "H4",
+            stage: stage.clone(),
+            detail: format!("library panicked: {msg}"),
+        }),
+        Ok(Err(e)) => st.harness_error = Some(e),
+        Ok(Ok(bad)) => {
+            if let Some(b) = bad.first() {
+                viol.push(Violation { props: vec!["C19"], oracle: "K3", stage: stage.clone(), detail: b.clone() });
+            }
+        },
+    }
+    if Iterator::any(&mut mask.iter(), |m| *m) {
+        st.fault("none_item");
+    }
+    st.hit("optional_collect_by_element_type");
+    let sig = format!("gen|optcollect|{}|{}|{:?}", g.ty.name(), g.out.name(), mask);
+    let mut h = 0xcbf2_9ce4_8422_2325u64;
+    fnv(&mut h, sig.as_bytes());
+    st.signature = h;
+    st.digest = h ^ (viol.len() as u64);
+    st.nontrivial = true;
+    (viol, st)
+}
+
 pub fn check_gen(g: &Gen) -> (Vec<Violation>, RunStats) {
+    if let GenKind::OptCollect { mask } = &g.kind {
+        return check_opt_collect(g, mask);
+    }
     if g.ty == GenTy::Trk {
         return check_gen_tracked(g);
     }
@@ -501,6 +590,7 @@ pub fn check_gen(g: &Gen) -> (Vec<Violation>, RunStats) {
             }
         },
         GenKind::Empty => st.fault("empty_input"),
+        GenKind::OptCollect { .. } => {},
     }
     let mut h = 0xcbf2_9ce4_8422_2325u64;
     fnv(&mut h, sig.as_bytes());
